@@ -13,8 +13,9 @@ TECHNIQUE = ("runtime monitoring: differential monitor of the real parser's tree
 LEVEL_TEXT = ("Held on the executions produced: for every generated (input, document | fragment+context, scripting) the tree "
               "equalled the model's, or the model with the recorded deviation switches reproduced html5lib's tree exactly "
               "(reported as the listed finding(s), minimal switch subset).  The directed walk covers every context prefix of "
-              "the catalogue x every probe token x 2 suffixes, in document and fragment mode.  Exploration, not proof.")
-BUDGET_S = {"quick": 60, "thorough": 1200}
+              "the catalogue x every probe token x 2 suffixes, in document and fragment mode, and EVERY sequence of up to 3 (quick) / 4 (thorough) "
+              "tokens over a 43-token alphabet (one shorter as fragments in 16 contexts).  Exploration, not proof.")
+BUDGET_S = {"quick": 75, "thorough": 1800}
 RULE = ("cases = (input, mode in {document, fragment with an HTML context element}, scripting); inputs: directed walk "
         "(context prefix x probe token x suffix), families for the quirks-mode decision, the algorithms' loop bounds and the "
         "frameset-ok flag, soup, structure-aware misnesting. distinct_nontrivial = distinct cases "
@@ -204,6 +205,39 @@ def probes():
     return out
 
 
+# bounded-exhaustive family: EVERY sequence of up to SEQ_LEN tokens over this alphabet (document mode, + observation text)
+SEQ_ALPHABET = ["<table>", "</table>", "<tr>", "<td>", "</td>", "<caption>", "<b>", "</b>", "<a>", "</a>", "<p>", "</p>", "<div>", "</div>",
+                "<li>", "<select>", "</select>", "<option>", "<form>", "</form>", "<button>", "<svg>", "</svg>", "<math>", "<mi>", "<desc>",
+                "<title>", "<frameset>", "</body>", "</html>", "<template>", "<nobr>", "<h1>", "<ruby>", "<rt>", "<object>", "</object>",
+                "<input type=hidden>", "<br>", "x", " ", "<!--c-->", "\x00"]
+SEQ_LEN = {"quick": 3, "thorough": 4}
+
+
+SEQ_CONTEXTS = ["div", "td", "tr", "tbody", "table", "caption", "colgroup", "select", "html", "head", "body", "title", "svg", "math", "p", "form"]
+
+
+def sequences(ctx, L=None):
+    """Shard-local slice of all sequences of length 1..L (index arithmetic, no materialised list)."""
+    A = SEQ_ALPHABET
+    n = len(A)
+    if L is None:
+        L = SEQ_LEN[ctx.tier]
+    total = sum(n ** l for l in range(1, L + 1))
+    idx = ctx.i
+    while idx < total:
+        r = idx
+        l = 1
+        while r >= n ** l:
+            r -= n ** l
+            l += 1
+        parts = []
+        for _ in range(l):
+            parts.append(A[r % n])
+            r //= n
+        yield "".join(parts)
+        idx += ctx.n
+
+
 def shard(ctx):
     from .. import h5
     k = 0
@@ -226,6 +260,23 @@ def shard(ctx):
             # fragment: the same probe in a rotating context element
             cont = ctxs[(pi * 7 + qi) % len(ctxs)]
             judge(ctx, {"input": pre + q + SUFFIXES[qi % 2], "container": cont, "scripting": bool(qi % 2)}, "walk-fragment")
+    # every short token sequence (bounded-exhaustive: the count is reported, a shortfall makes the run inconclusive)
+    t_seq = time.time() + ctx.time_left() * (0.5 if ctx.tier == "quick" else 0.6)
+    done_all = True
+    for qi, q in enumerate(sequences(ctx)):
+        judge(ctx, {"input": q + "x", "container": None, "scripting": False}, "sequence")
+        if qi % 64 == 0 and time.time() > t_seq:
+            done_all = False
+            break
+    if done_all:
+        # the same, one token shorter, as fragments in every context of SEQ_CONTEXTS
+        for qi, q in enumerate(sequences(ctx, SEQ_LEN[ctx.tier] - 1)):
+            for cont in SEQ_CONTEXTS:
+                judge(ctx, {"input": q + "x", "container": cont, "scripting": False}, "sequence-fragment")
+            if qi % 16 == 0 and time.time() > t_seq:
+                done_all = False
+                break
+    ctx.count("sequence_shards_completed" if done_all else "sequence_shards_cut_short")
     # directed families added after the second round of seeded changes: quirks-mode decision, loop bounds, frameset-ok flag
     for fam, items in (("doctype", doctype_family()), ("limits", limits_family())):
         for qi, q in enumerate(items):
@@ -349,6 +400,12 @@ def finalize(m, v):
         m["inconclusive"].append("directed walk incomplete (%d cases)" % c.get("cases:walk-document", 0))
     if c.get("model_loops", 0):
         m["inconclusive"].append("the reference model hit its reprocess-loop guard %d times" % c["model_loops"])
+    if c.get("sequence_shards_cut_short", 0):
+        m["inconclusive"].append("the bounded-exhaustive token-sequence family was cut short by the time budget in %d shard(s)" % c["sequence_shards_cut_short"])
     if c.get("determinism_checked", 0) < 500:
         m["inconclusive"].append("determinism clause checked fewer than 500 times")
-    return {"prefixes": len(PREFIXES), "probes": len(probes()), "insertion_modes_seen": len(modes)}
+    return {"prefixes": len(PREFIXES), "probes": len(probes()), "insertion_modes_seen": len(modes),
+            "bounded_exhaustive_family": {"what": "every sequence of 1..L tokens over SEQ_ALPHABET, document mode (+ 'x'); every sequence of 1..L-1 tokens as a fragment in each of SEQ_CONTEXTS",
+                                          "alphabet_size": len(SEQ_ALPHABET), "fragment_contexts": len(SEQ_CONTEXTS),
+                                          "document_sequences_run": c.get("cases:sequence", 0), "fragment_sequences_run": c.get("cases:sequence-fragment", 0),
+                                          "complete": not c.get("sequence_shards_cut_short", 0)}}
